@@ -20,32 +20,61 @@ func normName(s string) string {
 	return s
 }
 
-// combineElems returns the evaluated elements of the multierr.Combine call
-// whose result fn returns (single return), or nil.
-func (env *Env) combineElems(e *flow.Engine, fn *ssa.Function) ([]*flow.Term, *ssa.Call) {
-	var found *ssa.Call
-	n := 0
+// combineElems returns the error terms aggregated into the error that fn
+// returns on its single non-failing return: the operands of multierr.Combine
+// and of chains of multierr.Append (in any nesting, also accumulated by a loop
+// over a literal table, which the engine unrolls), flattened in order.
+func (env *Env) combineElems(e *flow.Engine, fn *ssa.Function) ([]*flow.Term, ssa.Instruction) {
+	var found *ssa.Return
 	for _, b := range fn.Blocks {
 		ret, ok := b.Instrs[len(b.Instrs)-1].(*ssa.Return)
-		if !ok {
+		if !ok || e.RetIsFail(ret) {
 			continue
 		}
-		if e.RetIsFail(ret) {
-			continue
-		}
-		n++
-		if c, ok := ret.Results[len(ret.Results)-1].(*ssa.Call); ok && c.Call.StaticCallee() != nil && c.Call.StaticCallee().String() == "go.uber.org/multierr.Combine" {
-			found = c
-		} else {
+		if found != nil {
 			return nil, nil
 		}
+		found = ret
 	}
-	if found == nil || n != 1 {
+	if found == nil || len(found.Results) == 0 {
 		return nil, nil
 	}
-	var ts []*flow.Term
-	for _, el := range e.SliceElems(found.Call.Args[0]) {
-		ts = append(ts, e.Eval(el, e.Root(fn)))
+	t := e.Eval(found.Results[len(found.Results)-1], e.Root(fn))
+	var flat func(t *flow.Term) ([]*flow.Term, bool)
+	flat = func(t *flow.Term) ([]*flow.Term, bool) {
+		t = flow.StripConv(t)
+		switch {
+		case t.IsConst("nil"):
+			return nil, true
+		case t.Op == flow.OpCall && t.Name == "go.uber.org/multierr.Combine" && len(t.Args) == 1:
+			els, ok := flow.SeqElems(t.Args[0])
+			if !ok {
+				if flow.StripConv(t.Args[0]).IsConst("nil") {
+					return nil, true
+				}
+				return nil, false
+			}
+			var out []*flow.Term
+			for _, el := range els {
+				sub, ok := flat(el)
+				if !ok {
+					return nil, false
+				}
+				out = append(out, sub...)
+			}
+			return out, true
+		case t.Op == flow.OpCall && t.Name == "go.uber.org/multierr.Append" && len(t.Args) == 2:
+			a, ok1 := flat(t.Args[0])
+			b, ok2 := flat(t.Args[1])
+			return append(a, b...), ok1 && ok2
+		case t.Op == flow.OpPhi || t.Op == flow.OpUnknown:
+			return nil, false
+		}
+		return []*flow.Term{t}, true
+	}
+	ts, ok := flat(t)
+	if !ok {
+		return nil, nil
 	}
 	return ts, found
 }
